@@ -40,7 +40,7 @@ def tyName : Ty → String
   | .nil => "nil" | .dir => "dir" | .num => "num" | .addr => "addr" | .str => "str" | .bmp => "bmp" | .blob => "blob"
 
 def hookOfName : String → Hook
-  | "vmciRaw" => .vmciRaw | "numFiles" => .numFiles | "ostype" => .ostype | _ => .none
+  | "vmciRaw" => .vmciRaw | "numFiles" => .numFiles | "ostype" => .ostype | "utsRelease" => .utsRelease | _ => .none
 
 def stName : Status → String
   | .ok => "ok" | .system => "system" | .notimpl => "notimpl" | .nodata => "nodata" | .invalid => "invalid" | .nokey => "nokey"
@@ -221,6 +221,26 @@ partial def loop (h : IO.FS.Stream) (s : DS) : IO Unit := do
       | some i =>
         let (st', r) := checkSet realHash st d i ("num:" ++ n)
         IO.println s!"> nfiles {stName r}"; loop h (putW w st')
+  | ["nfilesoom", c, n, _, slot, stage] =>
+    -- kdump_set_attr(file.set.number = n) in which an allocation of the new slot number cur + slot fails
+    -- (stage 0 directory, 1 fd, 2 name); slot `-` = no allocation fails
+    match world c.toNat! with
+    | none => IO.println "> bad-op"; loop h s
+    | some (w, d, st) =>
+      match lookup realHash st d (some "file.set.number") with
+      | none => IO.println "> nfilesoom nodata"; loop h s
+      | some i =>
+        if slot == "-" then
+          let (st', r) := checkSet realHash st d i ("num:" ++ n)
+          IO.println s!"> nfilesoom {stName r}"; loop h (putW w st')
+        else match st.get i with
+          | none => IO.println "> nfilesoom nodata"; loop h s
+          | some nd =>
+            let (st', r) := numFilesPreFail realHash st d nd n.toNat! (numOfTok nd.val) slot.toNat! stage.toNat!
+            if r == .ok then
+              let (st2, r2) := checkSet realHash st d i ("num:" ++ n)
+              IO.println s!"> nfilesoom {stName r2}"; loop h (putW w st2)
+            else do IO.println s!"> nfilesoom {stName r}"; loop h (putW w st')
   | ["ref", c, r, p] =>
     match world c.toNat! with
     | none => IO.println "> bad-op"; loop h s
